@@ -157,6 +157,14 @@ theorem C18_strictify_implies_general (row out : List (Option Nat)) (first : Boo
     (h : strictifyOkB row out first = true) : strictOkB row out first = true :=
   strictOkB_of_strictifyOkB row out first h
 
+/-- `incomplete_valuation_profile_to_complete_valuation_profile` (a conversion next to the ones the property names): same length,
+every value kept, every NaN replaced by 0 -/
+theorem C18_fillZero_spec (vals : List (Option Rat)) :
+    (fillZero vals).length = vals.length ∧
+    (∀ (j : Nat) (v : Rat), vals[j]? = some (some v) → (fillZero vals)[j]? = some v) ∧
+    (∀ j : Nat, vals[j]? = some none → (fillZero vals)[j]? = some 0) :=
+  fillZero_spec vals
+
 /-! ## C. `incomplete_profile_to_complete_profile` (`mode` 0 accept, 1 first, otherwise random) -/
 
 theorem C18_complete_model_ok (row : List (Option Nat)) (mode : Nat) (nanOrder : List Nat)
